@@ -39,7 +39,7 @@ def gen_op(rng, force_adjacent=False):
     if level == 'geom':
         k = rng.random()
         if k < 0.3 and not force_adjacent:
-            return dict(base, op='geom', gi=P(), how=rng.choice(['src_add', 'src_add', 'src_remove', 'src_data', 'attr']),
+            return dict(base, op='geom', gi=P(), how=rng.choice(['src_add', 'src_add', 'src_remove', 'src_data', 'attr', 'revertex']),
                         front=rng.random() < 0.5)
         return dict(base, op='geom', gi=P(), how='prim_' + how, kind=rng.choice([None, 'triangles', 'polylist', 'polygons', 'lines']))
     if level == 'node_tr':
